@@ -193,6 +193,42 @@ def run():
             if rt:
                 eok_lines.append('mok %s | %s' % (head, ' '.join(map(str, bss))))
                 eok_keys.append((ci, pi_))
+    # certificate: every step of every route of the handler's route map joins two layouts the constructor paired
+    # (route_enum_b, the hypothesis of c01_route_within_buffer); and handler_bufsize (hbuf) = bufferSize on every rank
+    en_lines, en_keys = [], []
+    for (ci, a, b, route) in rok_keys:
+        N, nprocs, layouts, pairs, seed = cases[ci]
+        rt = [layouts[int(x[1:])] for x in route]
+        en_lines.append('renum %s | %s | %s | %s' % (' '.join(map(str, nprocs)), ' / '.join(' '.join(map(str, l)) for l in layouts),
+                                                    ' '.join(map(str, layouts[int(a[1:])])), ' / '.join(' '.join(map(str, l)) for l in rt)))
+        en_keys.append((ci, a, b, route))
+    for (ci, a, b, route), ok in zip(en_keys, core.model_parallel(en_lines)):
+        chk.cov['certificates_checked'] += 1
+        if ok != '1':
+            N, nprocs, layouts, pairs, seed = cases[ci]
+            chk.violation('layout.LayoutHandler:route-step-not-an-enumerated-pair',
+                          'N=%r nprocs=%r layouts=%r: route %s->%s = %r has a step between layouts the constructor did not pair'
+                          % (N, nprocs, layouts, a, b, route),
+                          {'kind': 'certificate', 'theorem': 'c01_route_within_buffer (route_enum_b)', 'case': [N, nprocs, layouts], 'route': [a, b, route]},
+                          no_input=True)
+    hb_lines, hb_keys = [], []
+    for ci, (c, r) in enumerate(zip(cases, impl)):
+        if r[0] != 'ok':
+            continue
+        N, nprocs, layouts, pairs, seed = c
+        for rk in range(len(r[1])):
+            hb_lines.append('hbuf %s | %s | %s | %d' % (' '.join(map(str, N)), ' '.join(map(str, nprocs)),
+                                                       ' / '.join(' '.join(map(str, l)) for l in layouts), rk))
+            hb_keys.append((ci, rk))
+    for (ci, rk), m in zip(hb_keys, core.model_parallel(hb_lines)):
+        chk.cov['certificates_checked'] += 1
+        if m != str(impl[ci][1][rk]['bs']):
+            N, nprocs, layouts, pairs, seed = cases[ci]
+            chk.violation('layout.LayoutHandler.__init__:bufferSize-differs-from-handler_bufsize',
+                          'N=%r nprocs=%r layouts=%r: rank %d has bufferSize %r, handler_bufsize gives %s'
+                          % (N, nprocs, layouts, rk, impl[ci][1][rk]['bs'], m),
+                          {'kind': 'correspondence', 'theorem': 'handler_bufsize (C02) / c01_route_within_buffer', 'case': [N, nprocs, layouts]},
+                          no_input=True)
     fres = dict(zip(fkeys, core.model_parallel(flines)))
     eres = dict(zip(eok_keys, core.model_parallel(eok_lines)))
     mres = dict(zip(mkeys, core.model_parallel(mlines)))
@@ -294,7 +330,7 @@ def run():
                            'non-trivial = different layouts on more than one rank; distinct = (shape, grid, source, dest, buffer, dtype)'
                            % (6 if chk.tier == 'quick' else 9, 6 if chk.tier == 'quick' else 12),
                       uncovered=['the routes themselves are taken from the handler (certificate validated by route_ok_b); that every pair the handler connects directly is acceptable is proved (c01_compatible_step_ok)',
-                                 'that the extent of every step is at most bufferSize is checked per route (mh_route_ok with E = bufferSize), not proved',
+                                 'reads: that pack / Alltoall / unpack only read below the extent is visible in the model (data positions, unpack_addr_facts) but not stated as a separate read-frame theorem',
                                  'fast path (whole-buffer transpose) = per-rank unpack: covered by the differential strata div/eq, not a separate theorem'])
 
 
